@@ -35,7 +35,7 @@ func (c06) Describe() CheckInfo {
 		},
 		RealCode:       []string{"gopatch main()/runMain/mainCmd.Run, loader, patch.Parse/File.Apply, internal/*, go-flags, pkg/diff, x/tools/imports, go-intervals, go/parser, go/printer"},
 		Stubs:          []string{"package os (simulated filesystem, streams, exit)", "path/filepath filesystem half", "io/ioutil"},
-		RequiredProbes: []string{"unmatched-noncanonical", "unmatched-with-matching-neighbour", "print-only-echo", "diff-mode", "api-apply-unmatched", "verbose", "echo-adjacency-checked", "unmatched-readonly-or-odd-mode", "api-earlier-call-on-shared-patch", "fault-fired", "fault-on-stdout-in-print-mode", "many-files-under-descriptor-limit", "line-directive-names-sibling-file", "file-grows-between-walk-and-read", "underscore-or-dot-named-file", "unmatched-near-miss"},
+		RequiredProbes: []string{"unmatched-noncanonical", "unmatched-with-matching-neighbour", "print-only-echo", "diff-mode", "api-apply-unmatched", "verbose", "echo-adjacency-checked", "unmatched-readonly-or-odd-mode", "api-earlier-call-on-shared-patch", "fault-fired", "fault-on-stdout-in-print-mode", "many-files-under-descriptor-limit", "line-directive-names-sibling-file", "file-grows-between-walk-and-read", "underscore-or-dot-named-file", "unmatched-near-miss", "no-patch-supplied"},
 	}
 }
 
@@ -178,6 +178,19 @@ func (c06) Gen(env *Env, seed uint64, tier string, i int) *Case {
 	if r.Chance(1, 3) {
 		c.Spec.Knobs.StdinChunk = -16
 		c.Spec.Knobs.FileChunk = -64
+	}
+	if r.Chance(1, 25) {
+		// no patch at all: the list given with -P names nothing (a patch that would
+		// match waits on standard input, unasked for). Every file is unmatched.
+		c.Extra["no_patches"] = "1"
+		c.Extra["list_style"] = r.Pick([]string{"", "blank-lines"})
+		for k := range c.Files {
+			if c.Files[k].Role == "match" {
+				c.Files[k].Role = "nomatch"
+				c.Files[k].Note = "no-patch-supplied"
+				c.Files[k].Markers = nil
+			}
+		}
 	}
 	if i%10 == 9 {
 		c.Sub = "fault"
@@ -382,6 +395,9 @@ func (c06) Eval(env *Env, c *Case) []Violation {
 	if c.Extra["near_miss"] == "1" {
 		env.Probe("unmatched-near-miss")
 	}
+	if c.Extra["no_patches"] == "1" {
+		env.Probe("no-patch-supplied")
+	}
 	apiCache := map[int]Applier{}
 	stdoutPos := 0
 	prevEnd := -1 // end of the echo of the previous file in path order, if that file was unmatched too
@@ -466,6 +482,9 @@ func (c06) Eval(env *Env, c *Case) []Violation {
 		// (6) library API returns the input unchanged -- also when the same parsed
 		// patch has just been used on other files, including ones for which it fails
 		for pi, p := range c.Patches {
+			if c.Extra["no_patches"] == "1" {
+				break // the patches are decoys, nothing to apply
+			}
 			ap := apiCache[pi]
 			if ap == nil {
 				var pres APIResult
